@@ -16,10 +16,32 @@ type OracleC05 struct {
 	hashes  map[[2]int]Hash
 	anyHash map[[2]int]bool
 	preCache []dbft.VerifCacheEntry
+	tm       map[int]*c05Timing
+}
+
+// c05Timing: what one incarnation of a node could legitimately know about elapsed time and
+// round trips (simulated time; all the node's clock readings differ from it by a constant
+// unless the scenario makes the clock step).
+type c05Timing struct {
+	inc        int
+	enterAt    map[uint32]int64 // when Start/Reset put this incarnation at a height
+	hasProp    bool
+	lastPropAt int64  // its latest own proposal ...
+	lastPropH  uint32 // ... and that proposal's height
+	maxRT      int64  // upper bound of every round trip it can have measured
+}
+
+func (o *OracleC05) timing(n *Node) *c05Timing {
+	t := o.tm[n.id]
+	if t == nil || t.inc != n.inc {
+		t = &c05Timing{inc: n.inc, enterAt: map[uint32]int64{}}
+		o.tm[n.id] = t
+	}
+	return t
 }
 
 func NewOracleC05(s *Sim) *OracleC05 {
-	return &OracleC05{s: s, preFP: map[int]string{}, okCount: map[[2]int]int{}, hashes: map[[2]int]Hash{}, anyHash: map[[2]int]bool{}}
+	return &OracleC05{s: s, preFP: map[int]string{}, okCount: map[[2]int]int{}, hashes: map[[2]int]Hash{}, anyHash: map[[2]int]bool{}, tm: map[int]*c05Timing{}}
 }
 func (o *OracleC05) Name() string { return "C05" }
 
@@ -36,6 +58,13 @@ func (o *OracleC05) BeforeCall(n *Node, st *Step) {
 		// what the future-message cache holds before the call (see AfterCall)
 		o.preCache = n.d.VerifState().Cache
 	}
+	if n.d != nil && st.Op == OpReceive {
+		// a round trip is measured from an own proposal to a payload received later at that
+		// height: whatever the estimator does, no sample exceeds this
+		if t := o.timing(n); t.hasProp && t.lastPropH == n.d.BlockIndex && o.s.now-t.lastPropAt > t.maxRT {
+			t.maxRT = o.s.now - t.lastPropAt
+		}
+	}
 	if st.Op == OpStart || st.Op == OpReset {
 		k := [2]int{n.id, n.inc}
 		o.okCount[k] = 0
@@ -48,6 +77,10 @@ func (o *OracleC05) BeforeCall(n *Node, st *Step) {
 }
 
 func (o *OracleC05) OnOut(n *Node, st *Step, out *Out) {
+	if out.Kind == OBroadcast && out.P != nil && out.P.T == dbft.PrepareRequestType {
+		t := o.timing(n)
+		t.hasProp, t.lastPropAt, t.lastPropH = true, o.s.now, out.P.H
+	}
 	if out.Kind != OProcessBlock {
 		return
 	}
@@ -350,6 +383,34 @@ func (o *OracleC05) AfterCall(n *Node, st *Step) {
 			}
 		}
 	}
+	// ... and it shortens the wait by no more than the time this incarnation has spent at the
+	// previous height plus the longest round trip it can have measured: nothing else from
+	// earlier heights (or from before a restart) may eat into the timer.
+	tmg := o.timing(n)
+	if d.MyIndex >= 0 && !n.flagWO && d.ViewNumber == 0 && !s.sc.ClockJumps {
+		var last *Out
+		for i := range st.Outs {
+			if st.Outs[i].Kind == OTimerReset {
+				last = &st.Outs[i]
+			}
+		}
+		if at, ok := tmg.enterAt[tip]; ok && st.Op == OpReset && last != nil && last.H == tip+1 && last.V == 0 && !d.CommitSent() && !d.PreCommitSent() && !d.RequestSentOrReceived() {
+			ref := refTimers(s.sc.TPBAt(tip+1), nv)
+			full := ref.prim0
+			if s.sc.IndexAt(tip+1, n.ident) != primaryOf(tip+1, 0, nv) {
+				full = ref.back0
+			}
+			least := int64(full) - (s.now - at) - tmg.maxRT
+			if ref.ok && least > 0 {
+				if int64(last.D) < least {
+					o.viol(n, "timer_shortened_beyond_elapsed_time_and_round_trip", "height %d: the full timer is %v, this incarnation entered height %d only %.3f s ago and no round trip it can have measured exceeds %.3f s, yet the timer armed by the initialisation is %v", tip+1, full, tip, float64(s.now-at)/1e9, float64(tmg.maxRT)/1e9, last.D)
+					return
+				}
+				s.note("timer_within_elapsed_time_and_round_trip")
+			}
+		}
+	}
+	tmg.enterAt[tip+1] = s.now
 	if st.Op == OpReset && (tip+1 > st.PreBI+1) {
 		s.st.Exercised = true
 		s.note("reset_skipped_heights")
